@@ -32,6 +32,7 @@ TEXT = {
     'C22': 'TLC checks when push_stream may succeed and that a push-disabled client refuses PUSH_PROMISE; replay compares push calls and PUSH_PROMISE handling on both ends',
     'C23': 'TLC checks that PRIORITY changes no stream or window state and that only clients prioritise; replay compares PriorityUpdated events, emitted PRIORITY fields and state after every step',
     'C24': 'TLC checks who may advertise and origin/stream exclusivity; replay compares advertise calls and ALTSVC frames in every stream state of the scenarios',
+    'C25': 'initiate_upgrade_connection is modelled on both ends (preamble, HTTP2-Settings payload produced by the client and applied by the server without an ACK, stream 1 created half-closed); TLC checks that a fresh upgrade leaves stream 1 half-closed (local/remote), the next ids at 3 and 2, the returned payload equal to the local settings in force, and the server view of the client settings equal to that payload; replay compares every step of upgraded client, server and client/server pair scenarios, including the response on stream 1 and refused request bodies',
     'C26': 'TLC checks one PING ACK with identical payload per received PING in arrival order; replay compares frames and events',
     'C27': 'TLC checks the closed-stream memory cap and that non-opening frames allocate no stream; replay compares the stream table and closed-stream memory read from the real object after every step',
     'C28': 'the model is a function of the call sequence; the same behaviours are replayed in two fresh interpreters with different PYTHONHASHSEED values, both must match the prediction and the digests of all emitted bytes must be equal',
